@@ -157,7 +157,7 @@ func (rc *restartCtx) stopAndRestart(clean bool) bool {
 	// scripts are all-or-nothing
 	for _, a := range w.actors {
 		for _, op := range a.ops {
-			if len(op.Cmd.Inner) > 1 && op.name() == "eval" {
+			if len(op.Cmd.Inner) > 1 && op.name() == "eval" && op.Cmd.Tag != "steps" {
 				c := 0
 				for _, in := range op.Cmd.Inner {
 					if inFile[strings.Join(in, "\x00")] > 0 {
